@@ -1,5 +1,6 @@
 import HdVerif.Proofs.Match
 import HdVerif.Proofs.MatchTie
+import HdVerif.Proofs.MatchRel
 /-! # C09  Geometry matching and comparison mean what they say
 
 Property theorems only (helper lemmas and the specification predicates `AffineWithin`,
@@ -679,5 +680,138 @@ example : (match matchPlanGen mgPlanArgs (permuted exSrc.geom (mk3 2 0 1)) exTgt
     | .error _ => false) = true := by decide +kernel
 example : alignAxisGen mgAlignArgs exSrc.geom exTgt 0 (1 / 100000) = .ok (2, -2) := by decide +kernel
 example : getitemAxis ⟨1, some 4, 1⟩ 4 = .ok (1, 1, 3) ∧ giCheckSlice (some 1) (some 4) 4 = .ok true := by decide +kernel
+
+
+/-! # round 2 -/
+
+/-! ## `geometry_equal` as a relation: what holds and what does not -/
+
+/-- **Reflexive**: every object equals itself, for `tol=None` and every tolerance `≥ 0`. -/
+theorem geometryEqual_refl (g : Geom) (tol : Option Rat) (ht : ∀ t, tol = some t → 0 ≤ t) :
+    geometryEqual g g tol = .ok true :=
+  geometryEqual_refl' g tol ht
+
+/-- **Symmetric for `tol=None`** (exact comparison): the answer does not depend on the order. -/
+theorem geometryEqual_symm_exact (g h : Geom) : geometryEqual g h none = geometryEqual h g none :=
+  geometryEqual_symm_none g h
+
+/-- **Symmetric within the absolute part of the tolerance**: if shapes, coordinate systems and frames of reference agree and
+every affine entry differs by at most `t` (not counting `np.allclose`'s relative term), both orders answer yes. -/
+theorem geometryEqual_symm_within_atol (g h : Geom) (t : Rat) (hs : ∀ a, g.shape a = h.shape a) (hc : g.cs = h.cs)
+    (hf : NoForConflict g h) (ha : AffineAbsWithin g h t) :
+    geometryEqual g h (some t) = .ok true ∧ geometryEqual h g (some t) = .ok true :=
+  ⟨(geometryEqual_iff g h _).mpr ⟨hs, hc, hf, (affineWithin_of_abs ha).1⟩,
+   (geometryEqual_iff h g _).mpr ⟨fun a => (hs a).symm, hc.symm, noForConflict_symm hf, (affineWithin_of_abs ha).2⟩⟩
+
+/-- **Not symmetric in general** (`np.allclose(a, b)` scales its relative term by `|b|`): at the default tolerance
+`1e-5`, translations `100000` and `100001.000015` compare equal in one order and unequal in the other (confirmed on the
+real code; the window is `tol + 1e-5·|a| < |a - b| ≤ tol + 1e-5·|b|`). -/
+theorem counterexample_geometryEqual_not_symmetric :
+    geometryEqual (unitGeom 100000 none) (unitGeom (100001 + 15 / 1000000) none) (some (1 / 100000)) = .ok true ∧
+    geometryEqual (unitGeom (100001 + 15 / 1000000) none) (unitGeom 100000 none) (some (1 / 100000)) = .ok false := by
+  decide +kernel
+
+/-- **Not transitive**: two steps of `3/4·tol` are each within tolerance, together they are not. -/
+theorem counterexample_geometryEqual_not_transitive :
+    geometryEqual (unitGeom 0 none) (unitGeom (3 / 4096) none) (some (1 / 1024)) = .ok true ∧
+    geometryEqual (unitGeom (3 / 4096) none) (unitGeom (6 / 4096) none) (some (1 / 1024)) = .ok true ∧
+    geometryEqual (unitGeom 0 none) (unitGeom (6 / 4096) none) (some (1 / 1024)) = .ok false := by
+  decide +kernel
+
+/-- **Frames of reference: not transitive either** — an object without frame of reference equals objects of two different
+frames of reference, which are unequal to each other (for every tolerance, `None` included). -/
+theorem counterexample_for_not_transitive :
+    geometryEqual (unitGeom 0 (some "1.2.3")) (unitGeom 0 none) none = .ok true ∧
+    geometryEqual (unitGeom 0 none) (unitGeom 0 (some "1.2.4")) none = .ok true ∧
+    geometryEqual (unitGeom 0 (some "1.2.3")) (unitGeom 0 (some "1.2.4")) none = .ok false := by
+  decide +kernel
+
+/-- what does hold along a chain: entry by entry, the tolerances add up (plus the two relative terms) -/
+theorem geometryEqual_entry_triangle (t1 t2 a b c : Rat) (h1 : EntryWithin t1 a b) (h2 : EntryWithin t2 b c) :
+    rabs (a - c) ≤ t1 + t2 + rtolDefault * (rabs b + rabs c) :=
+  entryWithin_trans h1 h2
+
+/-! ## the index transformers of both directions -/
+
+/-- **Mutually inverse**: for any two volumes with invertible affines, transforming indices `A → B` and then `B → A`
+(unrounded, exact arithmetic) gives the indices back, in either order. -/
+theorem v2v_there_and_back (A B Ai Bi : Aff) (hA : A.inv = .ok Ai) (hB : B.inv = .ok Bi) (p : V3) :
+    (Ai.comp B).apply ((Bi.comp A).apply p) = p ∧ (Bi.comp A).apply ((Ai.comp B).apply p) = p :=
+  Match.v2v_there_and_back hA hB p
+
+/-- … and through the entry point itself (float64 / integer index arrays, no rounding, no bounds check): the output of
+the transformer `A → B`, handed to the transformer `B → A`, returns the input. -/
+theorem v2v_roundtrip (A B Ai Bi : Aff) (sa sb : Ax → Int) (dt : PtDtype) (hdt : ExactFloatOut dt) (pts out : List V3)
+    (hA : A.inv = .ok Ai) (hB : B.inv = .ok Bi) (h : v2v A B sb dt false false pts = .ok out) :
+    v2v B A sa dt false false out = .ok pts := by
+  obtain ⟨_, _, _, h4⟩ := v2v_eq_via_reference A B Bi sb dt false false pts out hB (fun h => by cases h) h
+  have ho := h4 hdt
+  simp only [Bool.false_eq_true, if_false] at ho
+  have hback : ∃ out2, v2v B A sa dt false false out = .ok out2 := by
+    unfold v2v
+    simp only [hA, Bool.false_eq_true, if_false, v2vCast_unrounded]
+    exact ⟨_, rfl⟩
+  obtain ⟨out2, h2⟩ := hback
+  obtain ⟨_, _, _, k4⟩ := v2v_eq_via_reference B A Ai sa dt false false out out2 hA (fun h => by cases h) h2
+  have ho2 := k4 hdt
+  simp only [Bool.false_eq_true, if_false] at ho2
+  rw [h2, ho2, ho, List.map_map]
+  congr 1
+  conv_rhs => rw [← List.map_id pts]
+  apply List.map_congr_left
+  intro p _
+  exact (Match.v2v_there_and_back hA hB p).1
+
+/-- **Integral on the lattice**: if every voxel `j` of `B` sits on voxel `f j` of `A` (same reference position), the
+transformer `B → A` maps the index `j` to exactly `f j`, the transformer `A → B` maps `f j` back to `j`, and rounding
+(`round_output=True`) changes neither. -/
+theorem v2v_integral_on_lattice (A B Ai Bi : Aff) (hA : A.inv = .ok Ai) (hB : B.inv = .ok Bi)
+    (f : (Ax → Int) → (Ax → Int)) (hf : ∀ j, B.apply (idxPt j) = A.apply (idxPt (f j))) (j : Ax → Int) :
+    (Ai.comp B).apply (idxPt j) = idxPt (f j) ∧ (Bi.comp A).apply (idxPt (f j)) = idxPt j ∧
+    roundV ((Ai.comp B).apply (idxPt j)) = idxPt (f j) ∧ roundV ((Bi.comp A).apply (idxPt (f j))) = idxPt j :=
+  v2v_integral hA hB f hf j
+
+/-- **Every reachable target — every signed permutation of the axes, any integer strides, crops and pads**: the two
+transformers between source and target are integer-valued on voxel indices and mutually inverse; target index `k` goes to
+source index `first + st · k` along the permuted axes (`reachSrc`). -/
+theorem v2v_reachable_integral (src tgt : Geom) (Ai Bi : Aff) (hA : src.aff.inv = .ok Ai) (hB : tgt.aff.inv = .ok Bi)
+    (hr : Reachable src tgt) :
+    ∃ (p : Ax → Ax) (first st : Ax → Int), isPerm p = true ∧ (∀ i, st i ≠ 0) ∧ ∀ k : Ax → Int,
+      (Ai.comp tgt.aff).apply (idxPt k) = idxPt (reachSrc p first st k) ∧
+      (Bi.comp src.aff).apply (idxPt (reachSrc p first st k)) = idxPt k ∧
+      roundV ((Ai.comp tgt.aff).apply (idxPt k)) = idxPt (reachSrc p first st k) ∧
+      roundV ((Bi.comp src.aff).apply (idxPt (reachSrc p first st k))) = idxPt k :=
+  Match.v2v_reachable_integral hA hB hr
+
+/-! ## matching a volume to its own geometry -/
+
+/-- **`match_geometry(self)` is the identity**: for every well-formed volume, tolerance `0 < tol ≤ 1` and padding mode,
+matching to the own geometry succeeds and returns the same affine, shape and voxels. -/
+theorem match_own_geometry {α : Type} (src : Vol α) (tol : Rat) (mode : PadMode α) (hlaw : StatLaw mode)
+    (hwf : WF src.geom) (hshape : ∀ i, 1 ≤ src.geom.shape i) (h0 : 0 < tol) (h1 : tol ≤ 1) :
+    ∃ r, matchGeometry src src.geom tol mode = .ok r ∧ (∀ i, r.geom.col i = src.geom.col i) ∧ r.geom.pos = src.geom.pos ∧
+      (∀ i, r.geom.shape i = src.geom.shape i) ∧ ∀ k, InShape src.geom.shape k → r.vox k = src.vox k := by
+  obtain ⟨r, hr1, hcol, hpos, hsh⟩ := match_complete src src.geom tol mode hwf hshape h0 h1 (NormalForm.refl _).reachable
+  refine ⟨r, hr1, hcol, hpos, hsh, fun k hk => ?_⟩
+  have hk' : InShape r.geom.shape k := fun a => by rw [hsh a]; exact hk a
+  have href : r.geom.toRef (toRat k) = src.geom.toRef (toRat k) := by simp only [Geom.toRef, hcol, hpos]
+  exact ((match_sound src src.geom tol mode hlaw r hwf.det_ne_zero hr1).2 k hk').1 k hk href.symm
+
+/-! ## non-vacuity (round 2) -/
+
+example : AffineAbsWithin (unitGeom 0 none) (unitGeom (1 / 2048) none) (1 / 1024) := by
+  refine ⟨fun a => ?_, ?_⟩
+  · rcases ax_cases a with rfl | rfl | rfl <;> simp [unitGeom, Geom.col, V3.smul, rabs_zero]
+  · simp [unitGeom, rabs]; norm_num
+example : (unitGeom 5 none).aff.inv.toBool = true ∧ exTgt.aff.inv.toBool = true ∧ exSrc.geom.aff.inv.toBool = true := by
+  decide +kernel
+/-- the reachable pair of round 1: target voxel (0,1,0) ↦ source voxel (0,1,3) and back, unrounded and rounded -/
+example : v2v exTgt.aff exSrc.geom.aff exSrc.geom.shape f64 true false [⟨0, 1, 0⟩] = .ok [⟨0, 1, 3⟩] ∧
+    v2v exSrc.geom.aff exTgt.aff exTgt.shape f64 true true [⟨0, 1, 3⟩] = .ok [⟨0, 1, 0⟩] ∧
+    ExactFloatOut f64 := by
+  refine ⟨by decide +kernel, by decide +kernel, Or.inr (fun _ => rfl)⟩
+example : (match matchGeometry exSrc exSrc.geom (1 / 100000) .edge with
+    | .ok r => r.vox (mk3 1 2 3) == 123 && r.vox (mk3 0 0 0) == 0
+    | .error _ => false) = true := by decide +kernel
 
 end HdVerif.C09
